@@ -54,8 +54,22 @@ LEVEL_TEXT = (
     "target of a call changes — inputs_never_mutated), refresh_after_sets_restores (update_defaults, any sets, "
     "refresh: the registered defaults come back with the values they had), share_shortcut_leaks (the same model "
     "with `old[k] = v` leaks across calls — the theorems are about the code). "
-    "VALIDATED ONLY (differential correspondence + oracles on every run): nested 'new-defaults' precedence; collect_env with several overlapping variables; interpret_value, serialize/deserialize "
-    "(documented rule / round trip, oracle only: ast.literal_eval, json, base64 are not modelled); collect_yaml / "
+    "Extension round (Props/C17x): update_new_defaults_spec (priority 'new-defaults', ANY DEPTH, any defaults: for every "
+    "scalar of new, get on the result returns ndExpect = the documented rule at the position old/defaults are really "
+    "looked at — canonPath, get_reads_canonPath) with the corollaries new_defaults_replaces_default (value still equals "
+    "the default -> new value), new_defaults_keeps_user_value (changed, or no default registered -> kept), "
+    "new_defaults_adds_new_key; cleanDB_sound (the hypothesis is checked per case by the driver). interpret_value on the "
+    "documented literal grammar (Model/ConfigInterp: ints, float texts kept opaque, True/False/None, quoted strings without "
+    "escapes, lists/dicts of these, blanks and trailing commas): interpret_value_roundtrip (interpret_value(repr(v)) = v, "
+    "any nesting; parseItem_repr + fuel bound size_le_length), interpret_value_identity(_on_words) (a text starting with "
+    "a letter/_ is returned unchanged unless it is True/False/None or a hard-coded word), "
+    "interpret_value_words_any_case (true/false/none/null in every letter case). set_get_through_serialize: under the "
+    "ASSUMED round trip deserialize(serialize(c)) = c, set on the deserialised copy = set on the original (get returns "
+    "the value, exit restores the original). "
+    "VALIDATED ONLY (differential correspondence + oracles on every run): collect_env with several overlapping variables; "
+    "interpret_value outside the modelled grammar (Python's full literal syntax: exponents, hex, underscores, tuples, sets, "
+    "bytes, escapes, … — documented-rule oracle; the model says `out of scope` there); serialize/deserialize themselves "
+    "(round-trip oracle incl. key order: json, base64 are not modelled); collect_yaml / "
     "collect / refresh on real files (order, extension filter, malformed files, precedence vs the model's reverse "
     "fold); expand_environment_variables; check_deprecations with random tables (modelled and diffed); get(default, "
     "override_with), pop. The identity model is tied to the real object graph (id() of every dict before and after "
@@ -73,8 +87,12 @@ ASSUMPTIONS = [
     "configurations IS shared by reference — lists are values for set/get/update, which never mutate them)",
     "keys are ASCII strings",
     "named configurations start separated (no dict object reachable from two of them); proved to stay so (hrun_sound)",
+    "deserialize(serialize(c)) == c for JSON-representable configurations (hypothesis of set_get_through_serialize; oracle in glue/env/serset)",
+    "interpret_value: the model claims agreement only where inScope holds (printable ASCII; a modelled literal whose dict "
+    "keys are pairwise different strings/ints, or a plain word); an unhashable dict key makes the real function raise TypeError (recorded, outside the statement)",
 ]
-TRUSTED = ["ast.literal_eval / json / base64 (interpret_value, serialize, deserialize are checked by oracle only)",
+TRUSTED = ["ast.literal_eval outside the modelled literal grammar; json / base64 (serialize, deserialize: round trip assumed by "
+           "set_get_through_serialize, checked by oracle); float(text) for float literals (the model keeps the text)",
            "PyYAML safe_load/safe_dump (files section)", "os.path.expandvars (expand section reference)"]
 
 
@@ -1194,9 +1212,48 @@ def case_interp(ctx, inp):
         ctx.disagree("interpret_value", m, repr(real))
 
 
+def case_serset(ctx, inp):
+    """API level for set_get_through_serialize: the ASSUMED round trip deserialize(serialize(c)) == c (key order and value
+    types included) checked on the real functions, and a real `with set(...)` block on the deserialised copy against the
+    model run on the ORIGINAL configuration: same contents inside, value readable under the key, original restored after."""
+    import dask.config as dc
+    it = Interner()
+    cfg = from_json_cfg(inp["cfg"])
+    cfg0 = deep(cfg)
+    text = dc.serialize(cfg)
+    copy_ = dc.deserialize(text)
+    if ordered(copy_) != ordered(cfg0) or ordered(cfg) != ordered(cfg0):
+        ctx.fail("deserialize(serialize(c)) != c", observed=copy_, expected=cfg0)
+        return
+    if not isinstance(text, str) or not all(c.isalnum() or c in "-_=" for c in text):
+        ctx.fail("serialize(c) is not URL-safe base64 text", observed=text)
+    key, val = inp["key"], from_json_cfg(inp["value"])
+    model = ctx.lean(Sym("cfg-set"), [[key, it.enc(val), False]], it.enc(cfg0))
+    try:
+        with dc.set({key: val}, config=copy_):
+            inside = deep(copy_)
+            try:
+                got = dc.get(key, config=copy_)
+            except (KeyError, TypeError) as e:
+                got = e
+        impl = [Sym("ok"), it.enc(inside)]
+    except (TypeError, ValueError):
+        impl = [Sym("raised"), it.enc(copy_)]
+        got = None
+    ctx.eq("set on deserialize(serialize(c)) vs model set on c", model[:2], impl)
+    if str(impl[0]) == "ok":
+        if ordered(got) != ordered(val):
+            ctx.fail("get after set on a deserialised configuration does not return the value set", observed=repr(got), expected=repr(val))
+        ctx.branch("ser-set-get" + ("-nested-key" if "." in key else ""))
+    else:
+        ctx.branch("ser-set-raises")
+    if ordered(copy_) != ordered(cfg0):
+        ctx.fail("leaving set(...) on a deserialised configuration does not restore the original", observed=copy_, expected=cfg0)
+
+
 CASES = {"set": case_set, "prog": case_prog, "get": case_get, "update": case_update, "merge": case_merge,
          "env": case_env, "glue": case_glue, "alias": case_alias, "hist": case_hist, "depr": case_depr,
-         "files": case_files, "expand": case_expand, "ndspec": case_ndspec, "interp": case_interp}
+         "files": case_files, "expand": case_expand, "ndspec": case_ndspec, "interp": case_interp, "serset": case_serset}
 
 # ------------------------------------------------------------------------------------------------------------
 # generators
@@ -1553,6 +1610,9 @@ def generate(ctx):
             if rng.random() < 0.5:
                 _overlay(dflt, old, rng)
         yield "update", {"old": old, "new": new, "priority": prio, "defaults": dflt}
+    for _ in range(ctx.n(60, 600)):
+        cfg = gen_cfg(rng, depth=3, segs=SEG_UPD)
+        yield "serset", {"cfg": cfg, "key": gen_key(rng, cfg, segs=SEG_UPD), "value": gen_value(rng)}
     for t in IV_TEXTS:
         yield "interp", {"text": t}
     for _ in range(ctx.n(250, 3000)):
